@@ -35,6 +35,7 @@ LIVELOCK_SCHEDS = ("ip", "llp", "ll", "ap")
 # known finding (corpus/C03/regress/three_ranks_hang.txt): on >= 3 ranks plain insertion scripts hang (flaky).  Unless
 # VF_DTD_RANKS3=1 the multi-rank scripts use 2 ranks.
 RANKS3 = os.environ.get("VF_DTD_RANKS3", "0") == "1"
+REMOTE_READ_OK = os.environ.get("VF_DTD_REMOTE_READ", "0") == "1"
 
 
 # ----------------------------------------------------------------------------------------------- reference
@@ -321,6 +322,8 @@ def scripts(draw, profile="c03", ranks=None, stats=None):
     inserters_in_segment = {}
     excluded_multi = [0]
     excluded_aba = [0]
+    excluded_rr = [0]
+    lastw_rank = [k % P for k in range(ntiles)]   # rank holding the newest version of each tile (owner initially / after a flush)
     lastuser = [None] * ntiles         # (class, flow index, read-only?) of the last task inserted on the tile
 
     def avail(p):
@@ -389,6 +392,19 @@ def scripts(draw, profile="c03", ranks=None, stats=None):
                 excluded_aba[0] += 1
         if t["affkind"] == 1:
             fl[I(0, len(fl) - 1)][2] = 1
+        if P > 1:
+            rk = t["affarg"] if t["affkind"] == 2 else [k for (k, m, a) in fl if a][0] % P
+            if not REMOTE_READ_OK:
+                # known finding (corpus/C03/regress/two_ranks_remote_reader_hang.txt): a pure INPUT access on a rank other
+                # than the one holding the newest version may never be served; such a parameter becomes INOUT (the data
+                # still travels, only the read-only sharing across ranks is lost)
+                for x in fl:
+                    if x[1] == 1 and lastw_rank[x[0]] != rk:
+                        x[1] = 3
+                        excluded_rr[0] += 1
+            for x in fl:
+                if x[1] & 2:
+                    lastw_rank[x[0]] = rk
         t["flows"] = [tuple(x) for x in fl]
         per = {}
         for f, (k, m, a) in enumerate(t["flows"]):
@@ -437,6 +453,8 @@ def scripts(draw, profile="c03", ranks=None, stats=None):
         for k in range(ntiles):
             if state[k] == ("pending", p):
                 state[k] = "free"
+                lastw_rank[k] = k % P
+                lastuser[k] = None
             if locked[k] == p:
                 locked[k] = None
         inserters_in_segment[p] = 0
@@ -495,6 +513,8 @@ def scripts(draw, profile="c03", ranks=None, stats=None):
             for k in range(ntiles):
                 state[k] = "free"
                 locked[k] = None
+                lastw_rank[k] = k % P
+                lastuser[k] = None
             for q in pools:
                 inserters_in_segment[q] = 0
         elif pick(pf["p_pool"]) and len(pools) > 1:
@@ -544,6 +564,8 @@ def scripts(draw, profile="c03", ranks=None, stats=None):
                 s["window"], s["threshold"] = 0, -1
     if stats is not None and excluded_multi[0]:
         stats["excluded_multiuse_params"] = stats.get("excluded_multiuse_params", 0) + excluded_multi[0]
+    if stats is not None and excluded_rr[0]:
+        stats["excluded_remote_pure_reads"] = stats.get("excluded_remote_pure_reads", 0) + excluded_rr[0]
     if stats is not None and excluded_aba[0]:
         stats["excluded_aba_params"] = stats.get("excluded_aba_params", 0) + excluded_aba[0]
     return s
